@@ -1311,10 +1311,6 @@ impl<const N: usize, T> CircularBuffer<N, T> {
     /// assert_eq!(buf.try_push_back('d'), Err('d'))
     /// ```
     pub fn try_push_back(&mut self, item: T) -> Result<(), T> {
-        if N == 0 {
-            // Nothing to do
-            return Ok(());
-        }
         if self.size >= N {
             // At capacity; return the pushed item as error
             Err(item)
@@ -1412,10 +1408,6 @@ impl<const N: usize, T> CircularBuffer<N, T> {
     /// assert_eq!(buf.try_push_front('d'), Err('d'));
     /// ```
     pub fn try_push_front(&mut self, item: T) -> Result<(), T> {
-        if N == 0 {
-            // Nothing to do
-            return Ok(());
-        }
         if self.size >= N {
             // At capacity; return the pushed item as error
             Err(item)
